@@ -19,7 +19,7 @@ package types
 //@   ensures !res.IsNil() && res == linSched(m.Amount, startTime, *endTime, blockTime)
 //@   ensures m.Amount >= 0 ==> 0 <= res && res <= m.Amount * P
 //@   reveal linSched
-//@   prop C02 C10
+//@   prop C02 C10 C19
 //@
 //@ // exponential-step schedule: E(j) is the amount of epoch j, S(n) the sum of the first n epochs
 //@ spec func expE(A int, m int, j int) int = j <= 0 ? A * P : chopRound(expE(A, m, j - 1) * m)
@@ -48,7 +48,7 @@ package types
 //@   ensures res == expSched(m.Amount, m.AmountMultiplier, m.StepDuration, startTime, *endTime, endTime != nil, blockTime)
 //@   ensures saneExp(m) ==> 0 <= res && res <= E64()
 //@   reveal expSched
-//@   prop C02 C10
+//@   prop C02 C10 C19
 //@ loop ExponentialStepMinting.AmountToMint#1
 //@   invariant 0 <= i && i <= numOfPassedEpochs
 //@   invariant !amountToMint.IsNil() && !epochAmount.IsNil()
@@ -81,7 +81,7 @@ package types
 //@
 //@ func (m *NoMinting) AmountToMint(logger, startTime, endTime, blockTime) (res)
 //@   ensures !res.IsNil() && res == 0
-//@   prop C02 C10
+//@   prop C02 C10 C19
 //@
 //@ pred saneMinter(m) = (isLinear(m) ==> linCfg(m).Amount < E36()) && (isExp(m) ==> saneExp(expCfg(m)))
 //@ func (m *Minter) AmountToMint(logger, startTime, blockTime) (res)
@@ -90,7 +90,7 @@ package types
 //@   panic_requires saneMinter(m)
 //@   ensures !res.IsNil() && res == sched(m, startTime, blockTime)
 //@   ensures saneMinter(m) ==> 0 <= res && res <= E64()
-//@   prop C02 C10
+//@   prop C02 C10 C19
 //@
 //@ // log-only helper: callers learn nothing about the result
 //@ func (m *Minter) GetMinterJSON() (r)
@@ -363,17 +363,17 @@ package types
 //@         && !expCfg(m).AmountMultiplier.IsNil() && expCfg(m).AmountMultiplier >= 0 && expCfg(m).StepDuration > 0)
 //@ func (m *LinearMinting) Validate() (err)
 //@   ensures err == nil ==> m != nil && !m.Amount.IsNil() && m.Amount >= 0
-//@   prop C13 C20
+//@   prop C13 C20 C02 C10 C19
 //@ func (m *ExponentialStepMinting) Validate() (err)
 //@   ensures err == nil ==> m != nil && !m.Amount.IsNil() && m.Amount > 0 && !m.AmountMultiplier.IsNil() && m.AmountMultiplier >= 0 && m.StepDuration > 0
-//@   prop C13 C20
+//@   prop C13 C20 C02 C10 C19
 //@ func (m *NoMinting) Validate() (err)
 //@   ensures err == nil
-//@   prop C13 C20
+//@   prop C13 C20 C02 C10
 //@ func (m *Minter) validate() (err)
 //@   requires m != nil
 //@   ensures err == nil ==> validMinterShape(m)
-//@   prop C13 C20
+//@   prop C13 C20 C02 C10
 //@ // the shape ValidateParamsMinters leaves: sorted by contiguous sequence ids starting above 0, every period valid, every period
 //@ // but the last with an end time, end times strictly increasing and after the start time
 //@ pred mintersShape(ms, start) = len(ms) >= 1 && (forall i: int :: {ms[i]} 0 <= i && i < len(ms) ==> ms[i] != nil && validMinterShape(ms[i]))
@@ -386,7 +386,7 @@ package types
 //@   requires forall i: int :: {params.Minters[i]} 0 <= i && i < len(params.Minters) && params.Minters[i] != nil ==> params.Minters[i].SequenceId < maxUint32
 //@   modifies elems(params.Minters)
 //@   ensures [shape] err == nil ==> mintersShape(params.Minters, params.StartTime)
-//@   prop C13 C20
+//@   prop C13 C20 C02 C10
 //@ loop Params.ValidateParamsMinters#1
 //@   invariant 0 <= \i && \i <= len(params.Minters)
 //@   invariant forall j: int :: {params.Minters[j]} 0 <= j && j < \i ==> params.Minters[j] != nil
